@@ -42,12 +42,28 @@ def result_ctor_sites(body, variant):
         if dl == 0:
             out.append((bi, si, s))
             continue
-        # moved to _0 ?
-        for bj, sj, s2 in stmts(body):
-            if s2["place"]["l"] == 0 and not s2["place"]["p"] and s2["rv"]["k"] == "use":
-                op = s2["rv"]["op"]
-                if op["k"] in ("copy", "move") and op["place"]["l"] == dl and not op["place"]["p"]:
-                    out.append((bi, si, s))
+        # moved to _0 ?  (through plain moves; for Err also through `?`: Try::branch on the value, from_residual into _0)
+        holders = {dl}
+        for _ in range(6):
+            grown = False
+            for bj, sj, s2 in stmts(body):
+                if not s2["place"]["p"] and s2["rv"]["k"] == "use":
+                    op = s2["rv"]["op"]
+                    if op["k"] in ("copy", "move") and op["place"]["l"] in holders and not op["place"]["p"] and s2["place"]["l"] not in holders:
+                        holders.add(s2["place"]["l"])
+                        grown = True
+            if not grown:
+                break
+        if 0 in holders:
+            out.append((bi, si, s))
+            continue
+        if variant == "Err":
+            branched = any(t["k"] == "call" and (t.get("callee") or {}).get("name") == "branch" and str((t.get("callee") or {}).get("trait") or "").endswith("Try")
+                           and t["args"] and t["args"][0]["k"] in ("copy", "move") and t["args"][0]["place"]["l"] in holders and not t["args"][0]["place"]["p"]
+                           for _b, t in body.calls())
+            residual = any((t.get("callee") or {}).get("name") == "from_residual" and t["dest"]["l"] == 0 and not t["dest"]["p"] for _b, t in body.calls())
+            if branched and residual:
+                out.append((bi, si, s))
     return out
 
 
